@@ -105,6 +105,11 @@ fn hostile_claims(rng: &mut Rng, now: i64) -> Value {
         }
         7 => json!({"iss": "https://issuer-a.example", "exp": now + 3600, "_sd": ["x"]}),
         8 => json!({"iss": "https://issuer-a.example", "exp": now + 3600, "a": [{"...": "x"}], "b": {"...": 1}, "_sd_alg": "md5", "cnf": 5}),
+        9 => {
+            // a caller-supplied confirmation claim of another RFC 7800 shape (the issuer keeps it)
+            let cnf = rng.pick(&[json!({"kid": "key-1"}), json!({"jkt": "abc"}), json!({}), json!({"jwk": 1}), json!({"jwk": {}}), json!({"jwk": {"kty": "EC"}}), json!({"jwk": {"alg": 5}}), json!([]), json!("x")]).clone();
+            json!({"iss": "https://issuer-a.example", "exp": now + 3600, "name": "n", "addr": {"city": "c"}, "cnf": cnf})
+        }
         _ => {
             let cfg = GenCfg { max_depth: 2 + rng.usize(5), max_nodes: 6 + rng.usize(30), hazard_pm: 300, alphabet: 2, path_safe_names: false };
             gen::gen_claims(rng, &cfg, "https://issuer-a.example", now)
@@ -221,7 +226,12 @@ pub fn gen_hostile(rng: &mut Rng, _tier: Tier) -> HostileScn {
     let alg = Some(keys::alg_of(&key).to_string());
     // 1. a well-formed credential to hang hostile holder / selection calls on
     let cfg = GenCfg { max_depth: 2 + rng.usize(4), max_nodes: 8 + rng.usize(24), hazard_pm: 200, alphabet: rng.usize(3) as u8, path_safe_names: true };
-    let claims = gen::gen_claims(rng, &cfg, "https://issuer-a.example", now);
+    let mut claims = gen::gen_claims(rng, &cfg, "https://issuer-a.example", now);
+    if rng.chance(1, 4) {
+        if let Some(o) = claims.as_object_mut() {
+            o.insert("cnf".into(), rng.pick(&[json!({"kid": "key-1"}), json!({}), json!({"jwk": {}}), json!({"jwk": {"alg": "EdDSA"}}), json!({"jkt": "x"})]).clone());
+        }
+    }
     let fmt = rand_fmt(rng);
     let hk = if rng.bool() { Some(msg_gen::holder_key(rng)) } else { None };
     ops.push(HOp::Issue { key: key.clone(), alg: alg.clone(), claims: claims.clone(), strat: if rng.bool() { Strat::All } else { gen::gen_strategy(rng, &claims) }, holder_key: hk.clone(), decoys: rng.bool(), fmt });
@@ -360,6 +370,14 @@ fn gen_msg_c07(rng: &mut Rng, tier: Tier) -> msg::MsgScn {
         if rng.bool() {
             c.session = Some((Some("a".into()), Some("n".into())));
         }
+        s.cases.push(c);
+    }
+    // arbitrary text in the KB slot while the verifier expects key binding
+    for kb in ["a.b", "a.b.c", "...", "e30.e30.e30", "e30.e30.", ".e30.", "eyJhbGciOiJFUzI1NiJ9.e30.AAAA", "eyJhbGciOiJFUzI1NiIsInR5cCI6ImtiK2p3dCJ9.eyJhdWQiOiJhIiwibm9uY2UiOiJuIn0.AAAA",
+        "eyJhbGciOiJub25lIn0.e30.", "eyJhbGciOjF9.e30.AAAA", "eyJ0eXAiOiJrYitqd3QifQ.e30.AAAA", "bnVsbA.bnVsbA.bnVsbA", "W10.W10.W10", "é.é.é", "e30", "e30.e30.e30.e30"] {
+        let mut c = plain(rng.pick(&bases).clone(), rand_fmt(rng));
+        c.faults.push(Fault::GarbageKb(kb.to_string()));
+        c.session = Some((Some("a".into()), Some("n".into())));
         s.cases.push(c);
     }
     for _ in 0..match tier {
